@@ -1,3 +1,4 @@
+import Gtree.Lemmas.SourceConfig
 import Gtree.Model.Api
 import Gtree.Lemmas.JsonTree
 /-
@@ -80,4 +81,14 @@ example : (decodeStream (encodeRoots [.mk ['"', '\\', '\n', '<', Char.ofNat 0x20
 
 end Json
 
+end Gtree
+
+namespace Gtree
+open Gtree.Src in
+/-- **Which encoding is selected, in the source (config.go, translated on this run)**: the LAST of the encoding
+    options in the list decides, whatever other options surround it; with none the output is the text tree. -/
+theorem C04_encoding_option_in_the_source (os : List Opt) :
+    (newConfig (os.map Opt.fn)).encode = lastEncode encodeDefault os := by
+  rw [newConfig_src, encode_fold]
+  rfl
 end Gtree
